@@ -923,6 +923,17 @@ def match_finding(violation: dict, findings: list[dict]) -> typing.Optional[dict
     return None
 
 
+def run_seed_isolated(job) -> dict:
+    """One history = one process tree grown from the worker's frozen zygote image: what the worker ran before (and so
+    the object addresses its children would inherit) has no say in this history."""
+    from detsim import runner as runmod  # pylint: disable=import-outside-toplevel
+
+    try:
+        return runmod.fork_run(run_seed, job, real_timeout=280)
+    except runmod.RunFailed as err:
+        raise base.HarnessError(str(err)[:1500]) from None
+
+
 def main(argv: list[str]) -> int:
     import argparse  # pylint: disable=import-outside-toplevel
 
@@ -956,7 +967,7 @@ def main(argv: list[str]) -> int:
     base.clean_replays(PROP)
     start = time.monotonic()
     jobs = [(seed0 * 1000 + i, enum) for i in range(nseeds)]
-    results, errors, exhausted = base.sweep(run_seed, jobs, budget)
+    results, errors, exhausted = base.sweep(run_seed_isolated, jobs, budget)
     base.emit_digests(results)
     findings = base.open_findings(PROP)
     stats: collections.Counter = collections.Counter()
